@@ -55,6 +55,10 @@ def m_del_drop_tail():
 def m_moma_infeasible_growth_unchecked():
     # reverts /repo e882884 (see NOTES_C06 / NOTES_C14)
     remake(DEL, "_get_growth", "if not isnan(growth):", "if True:")
+def m_sample_n_not_rounded():
+    # seeded defect missed by the first version of the driver: centre / n_samples updated with the requested n while the
+    # sum runs over all generated rows; only a LATER call on the same sampler goes wrong
+    remake_method(OPT.OptGPSampler, OPT, "sample", "            n = n_process * self.processes\n", "")
 def m_sample_floor():
     remake_method(OPT.OptGPSampler, OPT, "sample", "n_process = np.ceil(n / self.processes).astype(int)", "n_process = max(1, n // self.processes)")
 def m_sample_seed_time():
